@@ -196,3 +196,183 @@ def replay(steps, thresh_c, thresh_s):
     finally:
         w.stop()
     return res
+
+
+# ---------------------------------------------------------------------------
+# code -> spec: record naturally scheduled executions for RekeyTrace.tla
+# ---------------------------------------------------------------------------
+
+def _snap(conn):
+    return {'kc': bool(conn._kex_complete), 'ks': bool(conn._kexinit_sent),
+            'kexing': conn._kex is not None,
+            'staged': conn._next_recv_encryption is not None,
+            'ndef': len(conn._deferred_packets),
+            'cnt': int(conn._rekey_bytes_sent)}
+
+
+def _app_id(payload):
+    # CHANNEL_DATA: byte 94, uint32 channel, string data = b'%04d,'
+    try:
+        return int(payload[9:13])
+    except ValueError:
+        return -1
+
+
+def record_natural(seed, th_c, th_s, n_c=6, n_s=6, mode='mixed', kw=None):
+    """One real session, both applications writing from their own asyncio
+    tasks at seeded random (virtual) times, the byte stream segmented and
+    stalled at random, re-key limits th_c/th_s given in units of one
+    application packet (0 = never; fractions allowed via the 'half' flag in
+    mode).  Returns dict(trace=..., l1=[...], nkex=int, raw=int)."""
+    import asyncio
+    import random
+    from asyncssh import _verif
+    rng = random.Random(seed)
+    w = World(0, 0)
+    if kw:
+        w.pair.server_kw.update(kw)
+        w.pair.client_kw.update(kw)
+    p = w.pair.start()
+    log = []                              # raw, totally ordered
+
+    async def open_():
+        chan, _ = await p.conn.create_session(w.CS, command='x',
+                                              encoding=None, window=1 << 30)
+        w.chan['c'] = chan
+
+    p.run(open_())
+    p.loop.run_until_idle()
+    conns = {'c': p.conn, 's': p.sconn}
+    side_of = {id(p.conn): 'c', id(p.sconn): 's'}
+
+    def sink(name, f):
+        side = side_of.get(id(f.get('conn')))
+        if side is None:
+            return
+        if name in ('pkt_out', 'pkt_in'):
+            log.append((name, side, f['pkttype'], f['payload'],
+                        f.get('pktlen', 0)))
+        elif name == 'pkt_defer':
+            log.append((name, side, f['pkttype'], b'', 0))
+        elif name == 'pkt_done':
+            log.append((name, side, f['pkttype'], _snap(f['conn']), 0))
+
+    # measure what one application packet adds to the re-key counter
+    _verif.set_sink(sink)
+    for x in 'cs':
+        conns[x]._rekey_bytes = 1 << 30
+    before = {x: conns[x]._rekey_bytes_sent for x in 'cs'}
+    for x in 'cs':
+        p.call(w.chan[x].write, b'0000,')
+    p.loop.run_until_idle()
+    asz = {x: conns[x]._rekey_bytes_sent - before[x] for x in 'cs'}
+    if asz['c'] != asz['s'] or asz['c'] <= 0:
+        raise RuntimeError(f'application packet sizes differ: {asz}')
+    asz = asz['c']
+    w.rx = {'c': [], 's': []}
+    del log[:]
+    half = 'half' in mode
+    th = {}
+    for x, t in (('c', th_c), ('s', th_s)):
+        th[x] = 0 if t == 0 else 1 if t == 1 and not half else \
+            asz * t - (asz // 2 if half else 0)
+        conns[x]._rekey_bytes = th[x] if th[x] else 1 << 30
+        conns[x]._rekey_bytes_sent = 0
+    # random segmentation and stalls of both byte streams
+    if 'whole' not in mode:
+        for t in (p.ct, p.st):
+            t.chunker = (lambda avail: rng.randint(1, max(1, avail))) \
+                if 'tiny' not in mode else (lambda avail: rng.randint(1, 7))
+    lost = {}
+
+    async def writer(x, n):
+        for i in range(1, n + 1):
+            await asyncio.sleep(rng.choice([0, 0, 0, 0.001, 0.002, 0.01]))
+            if p.lost:
+                return
+            log.append(('app_begin', x, i, None, 0))
+            w.chan[x].write(b'%04d,' % i)
+            log.append(('app_end', x, i, _snap(conns[x]), 0))
+
+    async def staller():
+        for _ in range(12):
+            await asyncio.sleep(rng.choice([0.0005, 0.001, 0.003]))
+            t = rng.choice([p.ct, p.st])
+            t.auto = not t.auto
+        p.ct.auto = p.st.auto = True
+
+    async def go():
+        tasks = [writer('c', n_c), writer('s', n_s)]
+        if 'stall' in mode or mode == 'mixed':
+            tasks.append(staller())
+        await asyncio.gather(*tasks)
+
+    outcome = 'ok'
+    try:
+        p.run(go())
+        p.ct.auto = p.st.auto = True
+        p.loop.run_until_idle()
+    except Exception as exc:            # pylint: disable=broad-except
+        outcome = f'{type(exc).__name__}: {exc}'
+    _verif.set_sink(None)
+    # ---- raw log -> one event per spec action ----
+    ev = []
+    in_app = {'c': None, 's': None}       # kinds emitted inside a write()
+    cur_in = {'c': None, 's': None}       # (kind, id, [kinds emitted])
+    nkex = 0
+    for name, side, a, b, _ in log:
+        if name == 'app_begin':
+            in_app[side] = []
+        elif name == 'app_end':
+            ev.append(dict(e='app', x=side, id=a, t='', out=in_app[side],
+                           err=False, **b))
+            in_app[side] = None
+        elif name == 'pkt_out':
+            if a == 2:
+                continue
+            kind = KIND.get(a, f't{a}')
+            nkex += kind == 'KEXINIT'
+            if in_app[side] is not None:
+                in_app[side].append(kind)
+            elif cur_in[side] is not None:
+                cur_in[side][2].append(kind)
+            else:
+                ev.append(dict(e='stray', x=side, id=0, t=kind, out=[],
+                               err=False, kc=False, ks=False, kexing=False,
+                               staged=False, ndef=0, cnt=0))
+        elif name == 'pkt_in':
+            if a == 2:
+                continue
+            kind = KIND.get(a, f't{a}')
+            cur_in[side] = (kind, _app_id(b) if a == 94 else 0, [])
+        elif name == 'pkt_done':
+            if a == 2 or cur_in[side] is None:
+                continue
+            kind, pid, outs = cur_in[side]
+            cur_in[side] = None
+            ev.append(dict(e='recv', x='s' if side == 'c' else 'c', id=pid,
+                           t=kind, out=outs, err=False, **b))
+    for side in 'cs':
+        if cur_in[side] is not None:      # handler never finished
+            kind, pid, outs = cur_in[side]
+            ev.append(dict(e='recv', x='s' if side == 'c' else 'c', id=pid,
+                           t=kind, out=outs, err=True,
+                           **_snap(conns[side])))
+    l1 = []
+    for x, y, n in (('c', 's', n_c), ('s', 'c', n_s)):
+        if w.rx[y] != list(range(1, n + 1)):
+            l1.append(f'FIFOExactlyOnce: {x} wrote 1..{n}, {y} received '
+                      f'{w.rx[y]}')
+    if p.lost:
+        l1.append(f'NoKeyMismatch: connection lost: {p.lost}')
+    if outcome != 'ok':
+        l1.append(f'session failed: {outcome}')
+    hook_events = [(s_, 'pkt_out', {'pkttype': a})
+                   for n_, s_, a, _, _ in log if n_ == 'pkt_out']
+    l1 += only_kex_between(hook_events)
+    exc = [str(c.get('exception') or c.get('message'))
+           for c in p.loop.exceptions]
+    w.stop()
+    return {'trace': {'thc': th['c'], 'ths': th['s'], 'asz': asz, 'ev': ev,
+                      'seed': seed, 'mode': mode},
+            'l1': l1, 'nkex': nkex, 'raw': len(log), 'loop_exceptions': exc}
